@@ -1098,7 +1098,7 @@ func Run(o *hx.Out, g *hx.Rng, tier string) {
 	for _, dp := range [][2]int{{2, 1}, {10, 3}, {1, 1}} {
 		n := uint32(dp[0] + dp[1])
 		for _, pos := range []uint32{0, 3 * n, 1 << 20 / n * n, (1<<31 - 1000) / n * n, (1<<31 + 1<<20) / n * n, 3 << 30 / n * n, pawsOf(int(n)) - 2*n} {
-			x.youngDecoder(dp[0], dp[1], pos, 8)
+			x.youngDecoder(dp[0], dp[1], pos, 12)
 		}
 	}
 	// --- a sender with d+p = 256 (the largest the encoder accepts): never adopted
